@@ -656,6 +656,69 @@ func runner(repo string) {
 	}
 }
 
+// files.go VFS.Exists / checkDirExists: Unlock's re-check after the removal (and every step of Rm) goes through them.
+// The fact that matters to the lock: a Stat that FAILS — for whatever reason — counts as "absent".
+func existsFns(repo string) {
+	path := filepath.Join(repo, "utils", "filesystem", "files.go")
+	f, err := parser.ParseFile(fset, path, nil, 0)
+	if err != nil {
+		fmt.Fprintln(os.Stderr, "lock2coq:", err)
+		os.Exit(1)
+	}
+	var ex, cde *ast.FuncDecl
+	for _, d := range f.Decls {
+		if x, ok := d.(*ast.FuncDecl); ok && x.Body != nil && x.Recv != nil {
+			switch x.Name.Name {
+			case "Exists":
+				ex = x
+			case "checkDirExists":
+				cde = x
+			}
+		}
+	}
+	if ex == nil || cde == nil {
+		fmt.Fprintln(os.Stderr, "lock2coq: VFS.Exists / VFS.checkDirExists not found")
+		os.Exit(1)
+	}
+	l := ex.Body.List
+	nstmts("Exists", l, 5)
+	want(l[0], src(l[0]), "fi, err := fs.Stat(path)", "Exists[0]")
+	eb, ok := l[1].(*ast.IfStmt)
+	if !ok || eb.Init != nil || eb.Else != nil || src(eb.Cond) != "err != nil" {
+		die(l[1], "Exists: `if err != nil {...}` expected: %s", src(l[1]))
+	}
+	switch {
+	case src(eb.Body) == "{ if IsPathNotExist(err) { return false } }":
+		F.set("ex_stat_error_means_absent", "true")
+	case strings.Contains(src(eb.Body), "return true"):
+		F.set("ex_stat_error_means_absent", "false") // some failure of Stat is answered "exists"
+	default:
+		die(eb, "Exists: error branch: %s", src(eb.Body))
+	}
+	want(l[2], src(l[2]), "if fi == nil { return false }", "Exists[2]")
+	want(l[3], src(l[3]), "if fi.IsDir() { return fs.checkDirExists(path) }", "Exists[3]")
+	want(l[4], src(l[4]), "return true", "Exists[4]")
+	F.set("ex_dir_double_check", "true")
+	c := cde.Body.List
+	exp := []string{
+		"exist = false",
+		"f, err := fs.vfs.Open(path)",
+		"err = ConvertFileSystemError(err)",
+		"if err != nil { return }",
+		"defer func() { _ = f.Close() }()",
+		"_, err = f.Readdirnames(1)",
+		"if IsPathNotExist(err) { exist = false } else { exist = true }",
+		"_ = f.Close()",
+		"return",
+	}
+	nstmts("checkDirExists", c, len(exp))
+	for i, e := range exp {
+		want(c[i], src(c[i]), e, fmt.Sprintf("checkDirExists[%d]", i))
+	}
+	F.set("ex_open_error_means_absent", "true")
+	F.set("ex_readdir_error_other_than_notexist_means_present", "true")
+}
+
 func main() {
 	if len(os.Args) != 2 {
 		fmt.Fprintln(os.Stderr, "usage: lock2coq <out.v>")
@@ -697,9 +760,10 @@ func main() {
 	runner(repo)
 	unlock()
 	heartBeat()
+	existsFns(repo)
 
 	var out bytes.Buffer
-	out.WriteString("(* GENERATED by translator-c01/cmd/lock2coq from utils/filesystem/lockfile.go and utils/parallelisation/parallelisation.go\n   (RunActionWithTimeoutAndCancelStore) of the repository's working tree —\n   DO NOT EDIT; regenerated on every run of ./check C01. *)\nFrom Coq Require Import List.\nImport ListNotations.\nFrom GU Require Import C01.Facts C01.Model.\n\nDefinition facts : lockfacts := {|\n")
+	out.WriteString("(* GENERATED by translator-c01/cmd/lock2coq from utils/filesystem/lockfile.go, files.go (Exists, checkDirExists) and utils/parallelisation/parallelisation.go\n   (RunActionWithTimeoutAndCancelStore) of the repository's working tree —\n   DO NOT EDIT; regenerated on every run of ./check C01. *)\nFrom Coq Require Import List.\nImport ListNotations.\nFrom GU Require Import C01.Facts C01.Model.\n\nDefinition facts : lockfacts := {|\n")
 	for i, kv := range F.kv {
 		sep := ";"
 		if i == len(F.kv)-1 {
